@@ -33,7 +33,7 @@ Record gmethod := {
   gm_name : string;          (* Go method name *)
   gm_args : list kind;       (* positional parameters (context excluded) *)
   gm_args_ok : bool;         (* every parameter type is exported or builtin *)
-  gm_ret_ok : bool           (* return layout is (), (T), (error) or (T, error) *)
+  gm_ret_ok : bool           (* return layout is (T), (error) or (T, error) *)
 }.
 
 Definition lower (c : ascii) : ascii :=
